@@ -543,13 +543,14 @@ def check_input(seed, width, length, prob_robot_break, prob_light_break, prob_lo
         raise ValueError("The width must be a positive integer")
     if length <= 0:
         raise ValueError("The length must be a positive integer")
-    if prob_robot_break <= 0 or prob_robot_break >= 1:
+    # "not 0 < p < 1" rather than "p <= 0 or p >= 1": NaN must be refused too
+    if not 0 < prob_robot_break < 1:
         raise ValueError("The failure probability of the robot must be a float in (0,1)")
-    if prob_light_break <= 0 or prob_light_break >= 1:
+    if not 0 < prob_light_break < 1:
         raise ValueError("The failure probability of the light must be a float in (0,1)")
-    if prob_loose_tile <= 0 or prob_loose_tile >= 1:
+    if not 0 < prob_loose_tile < 1:
         raise ValueError("The probability of a tile being loose must be a float in (0,1)")
-    if prob_tile_break <= 0 or prob_tile_break >= 1:
+    if not 0 < prob_tile_break < 1:
         raise ValueError("The probability of a tile breaking must be a float in (0,1)")
     if max_reward <= 0:
         raise ValueError("The maximum reward must be a positive integer")
